@@ -604,7 +604,8 @@ Proof.
     - apply is_empty_false in E.
       pose proof (etag_match_total etag inm) as T.
       destruct (etag_match etag inm) as [[|]|] eqn:M; [| |congruence].
-      + apply etag_match_spec in M. left. repeat split; try assumption.
+      + apply etag_match_spec in M. left.
+        split; [assumption|]. split; [assumption|]. split; [assumption|].
         destruct (is_get_or_head method); reflexivity.
       + apply etag_match_false in M. right. tauto. }
   destruct (is_empty im) eqn:E.
@@ -621,7 +622,7 @@ Theorem cp_never_out_of_fuel : forall m e im inm,
 Proof.
   intros m e im inm. pose proof (check_preconditions_spec m e im inm) as H.
   destruct H as [(_ & _ & H)|[(_ & _ & _ & H)|(_ & _ & H)]]; rewrite H;
-    try discriminate. destruct (is_get_or_head m); discriminate.
+    try discriminate; try (destruct (is_get_or_head m); discriminate).
 Qed.
 
 (* If-Match: a request that is let through presented the current tag *)
@@ -631,10 +632,11 @@ Theorem if_match_exact : forall m etag im inm,
   (check_preconditions m etag im inm = CpNotDone -> matches etag im).
 Proof.
   intros m etag im inm Him. pose proof (check_preconditions_spec m etag im inm) as H.
-  split.
-  - intro Hn. destruct H as [(_ & _ & H)|[([A|A] & _)|([A|A] & _)]]; tauto.
-  - intro E. destruct H as [(_ & _ & H)|[([A|A] & _)|([A|A] & _)]]; try tauto.
-    rewrite H in E. discriminate.
+  unfold cp_spec in H. split.
+  - intro Hn. destruct H as [(A & B & C)|[(A & B & C & D)|(A & B & C)]];
+      [assumption | exfalso; tauto | exfalso; tauto].
+  - intro E. destruct H as [(A & B & C)|[(A & B & C & D)|(A & B & C)]];
+      [congruence | tauto | tauto].
 Qed.
 
 Theorem if_none_match_exact : forall m etag im inm,
@@ -644,11 +646,12 @@ Theorem if_none_match_exact : forall m etag im inm,
   (~ matches etag inm -> check_preconditions m etag im inm = CpNotDone).
 Proof.
   intros m etag im inm Him Hinm.
-  pose proof (check_preconditions_spec m etag im inm) as H. split; intro Hm.
-  - destruct H as [(A & B & _)|[(_ & _ & _ & H)|(_ & [B|B] & _)]]; try tauto.
-    destruct Him; tauto.
-  - destruct H as [(A & B & _)|[(_ & _ & B & _)|(_ & _ & H)]]; try tauto.
-    destruct Him; tauto.
+  pose proof (check_preconditions_spec m etag im inm) as H. unfold cp_spec in H.
+  split; intro Hm.
+  - destruct H as [(A & B & C)|[(A & B & C & D)|(A & B & C)]];
+      [exfalso; tauto | assumption | exfalso; tauto].
+  - destruct H as [(A & B & C)|[(A & B & C & D)|(A & B & C)]];
+      [exfalso; tauto | exfalso; tauto | assumption].
 Qed.
 
 Theorem status_304_iff : forall m etag im inm,
@@ -656,12 +659,27 @@ Theorem status_304_iff : forall m etag im inm,
   (get_or_head m /\ (im = [] \/ matches etag im) /\ inm <> [] /\ matches etag inm).
 Proof.
   intros m etag im inm. pose proof (check_preconditions_spec m etag im inm) as H.
-  rewrite <- is_get_or_head_spec. split.
-  - intro E. destruct H as [(_ & _ & H)|[(A & B & C & H)|(_ & _ & H)]];
-      rewrite H in E; try discriminate.
-    destruct (is_get_or_head m); [tauto | discriminate].
+  unfold cp_spec in H. rewrite <- is_get_or_head_spec. split.
+  - intro E. destruct H as [(A & B & C)|[(A & B & C & D)|(A & B & C)]].
+    + rewrite C in E. discriminate.
+    + destruct (is_get_or_head m).
+      * split; [reflexivity|]. split; [assumption|]. split; assumption.
+      * rewrite D in E. discriminate.
+    + rewrite C in E. discriminate.
   - intros (G & A & B & C).
-    destruct H as [(A' & B' & _)|[(_ & _ & _ & H)|(_ & [B'|B'] & _)]]; try tauto.
-    + destruct A; tauto.
-    + rewrite H, G. reflexivity.
+    destruct H as [(A' & B' & C')|[(A' & B' & C' & D')|(A' & B' & C')]].
+    + exfalso. tauto.
+    + rewrite D', G. reflexivity.
+    + exfalso. tauto.
+Qed.
+
+(* a header that is one well-formed entity-tag is matched by that tag only,
+   whatever the current tag is (even a malformed one) *)
+Lemma matches_single_tag : forall e t, entity_tag t -> matches e t -> e = t.
+Proof.
+  intros e t Ht M. apply etag_match_spec in M. unfold etag_match in M.
+  destruct (is_empty t); [discriminate|].
+  destruct (str_eqb t e) eqn:Q; [apply str_eqb_eq in Q; congruence|].
+  pose proof (loop_step_tag (length t) e t [] Ht) as L. rewrite app_nil_r in L.
+  rewrite L, Q in M. destruct (length t); cbn in M; discriminate.
 Qed.
